@@ -15,7 +15,8 @@ Record loc := { line : N; col : N }.
 
 Inductive lerr :=
 | EUnexpectedLineBreak | EBadEscape | EBadChar | EBadBin | EBadDec | EBadHex
-| EUnrecognized | EUnknownDirective | EMalformedLabel.
+| EUnrecognized | EUnknownDirective | EMalformedLabel
+| ERead.        (* the character source failed: a byte that is not UTF-8, or an I/O error (never produced by [step]) *)
 
 Inductive item :=
 | ITok (t : token) (l : loc)
@@ -284,8 +285,10 @@ Section Lex.
   Definition unstash (s : lexst) : lexst :=
     {| x_state := x_state s; x_buf := x_buf s; x_loc := x_loc s; x_tok := x_tok s; x_stash := None; x_eof := x_eof s; x_nl := x_nl s |}.
 
-  (* the token stream of an input; stops at the first error *)
-  Fixpoint lex (fuel : nat) (s : lexst) (input : list N) : list item :=
+  (* the token stream of an input; stops at the first error.  [fault]: the character source does not end
+     after [input] but fails there (Lexer::next, arm Some(Err(e))): the error is located at the character
+     that could not be read *)
+  Fixpoint lex (fault : bool) (fuel : nat) (s : lexst) (input : list N) : list item :=
     match fuel with
     | O => []
     | S f =>
@@ -294,8 +297,8 @@ Section Lex.
         let (s1, out) := step (unstash s) c in
         match out with
         | Some (IErr e l) => [IErr e l]
-        | Some it => it :: lex f s1 input
-        | None => lex f s1 input
+        | Some it => it :: lex fault f s1 input
+        | None => lex fault f s1 input
         end
       | None =>
         match input with
@@ -304,11 +307,12 @@ Section Lex.
           let (s1, out) := step s0 c in
           match out with
           | Some (IErr e l) => [IErr e l]
-          | Some it => it :: lex f s1 rest
-          | None => lex f s1 rest
+          | Some it => it :: lex fault f s1 rest
+          | None => lex fault f s1 rest
           end
         | [] =>
-          if x_eof s then []
+          if fault then [IErr ERead (fst (advance_loc (x_loc s, x_nl s) 0))]
+          else if x_eof s then []
           else
             (* one synthesised line break flushes the last token *)
             let s0 := {| x_state := x_state s; x_buf := x_buf s;
@@ -317,12 +321,14 @@ Section Lex.
             let (s1, out) := step s0 10 in
             match out with
             | Some (IErr e l) => [IErr e l]
-            | Some it => it :: lex f s1 []
-            | None => lex f s1 []
+            | Some it => it :: lex fault f s1 []
+            | None => lex fault f s1 []
             end
         end
       end
     end.
 
-  Definition lex_all (input : list N) : list item := lex (3 * length input + 8) st0 input.
+  Definition lex_all (input : list N) : list item := lex false (3 * length input + 8) st0 input.
+  (* the characters [input] were read, then the source failed *)
+  Definition lex_fault (input : list N) : list item := lex true (3 * length input + 8) st0 input.
 End Lex.
